@@ -73,6 +73,10 @@ def _gate_leaves_false(facts):
         t = b["term"]
         if t["k"] == "switch" and not b.get("cleanup"):
             gate_conds.add(norm(shapes.shape(gf, t["op"], 5)))
+    # the last clause of an `a || b` is not branched on: it is the value returned
+    for bb, j, st in gf.stmts():
+        if st["rv"]["k"] == "bin" and st["rv"]["op"] in ("Ge", "Gt", "Le", "Lt", "Eq", "Ne"):
+            gate_conds.add(norm("(%s %s %s)" % (st["rv"]["op"], shapes.shape(gf, st["rv"]["a"], 4), shapes.shape(gf, st["rv"]["b"], 4))))
     gate_subs = {callee(t) for bb, t in gf.calls() if callee(t) in facts.fns}
     grows = [(bb, t) for bb, t in gc.calls() if callee(t) == HEAP + "grow"]
     if not grows:
@@ -1053,15 +1057,21 @@ def r12p(ctx, rep, rule="R12p"):
     rep.note("%s: run_gc's gate (%s) reads Heap.{%s}" % (rule, ", ".join(sorted({short_path(callee(t)) for _, t in gate_calls})),
                                                        ", ".join(sorted(gate_fields))))
     weighers = set()
-    for nm in ("put", "maybe_put"):
-        f = need(rep, rule, facts, HEAP + nm)
-        if f is None:
-            continue
-        lab = Labels(f, init={2: {"v"}})
+
+    def weighed_fields(path, tainted_args, depth=2, seen=None):
+        """fields of Heap written with a value derived from the tainted arguments of `path`, following Heap methods and
+        module-level helpers that receive a tainted argument; collects the helper functions (weighers) on the way"""
+        seen = seen if seen is not None else set()
+        f = facts.fns.get(path)
+        if f is None or (path, tuple(sorted(tainted_args))) in seen or depth < 0:
+            return {}
+        seen.add((path, tuple(sorted(tainted_args))))
+        lab = Labels(f, init={a: {"v"} for a in tainted_args})
         W = {}
-        for bb, j, st in f.stmts():
+        recv_is_heap = len(f.locals) > 1 and "heap::Heap" in (f.locals[1] or "")
+        for bb, j_, st in f.stmts():
             lp = st["lhs"]
-            if lp["l"] == 1 and len(lp["p"]) >= 2 and lp["p"][0] == "*" and isinstance(lp["p"][1], dict) and "n" in lp["p"][1]:
+            if recv_is_heap and lp["l"] == 1 and len(lp["p"]) >= 2 and lp["p"][0] == "*" and isinstance(lp["p"][1], dict) and "n" in lp["p"][1]:
                 ls = set()
                 for pr in places_read(st["rv"]):
                     ls |= lab.of_place(pr)
@@ -1069,9 +1079,27 @@ def r12p(ctx, rep, rule="R12p"):
                     W.setdefault(lp["p"][1]["n"], []).append(st["loc"])
         for bb, t in f.calls():
             c = callee(t)
-            if c in facts.fns and c.startswith("marwood::vm::heap::") and not c.startswith(HEAP) and \
-                    any("v" in a for a in lab.call_arg_labels(t, bb)):
+            if c not in facts.fns or not c.startswith("marwood::vm::heap::"):
+                continue
+            al = lab.call_arg_labels(t, bb)
+            tainted = [i + 1 for i, a in enumerate(al) if "v" in a]
+            if not tainted:
+                continue
+            if not c.startswith(HEAP):
                 weighers.add(c)
+                continue
+            if c in (HEAP + "put", HEAP + "maybe_put", HEAP + "alloc"):
+                continue
+            sub = weighed_fields(c, tainted, depth - 1, seen)
+            for k_, v_ in sub.items():
+                W.setdefault(k_, []).extend(v_)
+        return W
+
+    for nm in ("put", "maybe_put"):
+        f = need(rep, rule, facts, HEAP + nm)
+        if f is None:
+            continue
+        W = weighed_fields(HEAP + nm, [2])
         key = "%s|%s|weight-reaches-gate" % (rule, nm)
         hit = sorted(set(W) & gate_fields)
         (rep.ok if hit else rep.fail)(
